@@ -104,7 +104,7 @@ class InterconnectShared(Module):
             intermediate.adr.eq(  Reduce("OR", [masters[i].adr   for i in range(len(masters))])),
             intermediate.re.eq(   Reduce("OR", [masters[i].re    for i in range(len(masters))])),
             intermediate.we.eq(   Reduce("OR", [masters[i].we    for i in range(len(masters))])),
-            intermediate.dat_w.eq(Reduce("OR", [masters[i].dat_w for i in range(len(masters))]))
+            intermediate.dat_w.eq(Reduce("OR", [Mux(masters[i].we, masters[i].dat_w, 0) for i in range(len(masters))]))
         ]
         for i in range(len(masters)):
             self.comb += masters[i].dat_r.eq(intermediate.dat_r)
